@@ -219,8 +219,10 @@ func (t *taintCtx) fieldTainted(f *types.Var) bool {
 		if f2, _ := loadedField(unwrap(fs.St.Val, true)); f2 != nil && !t.fieldTainted(f2) {
 			continue
 		}
-		// anything else: judged where it is stored, with every parameter of that function taken as cell text
-		if !t.tainted(fs.Fn, fs.St.Val, strings.Repeat("1", len(fs.Fn.Params))) {
+		// anything else: judged where it is stored, with every parameter of that function taken as cell text - but
+		// only for records that live for one render. What is kept in the wrapper itself outlives the render: text
+		// found there when writing may come from an earlier state of the table (a cache), so only constants count
+		if !t.wrapperField(f) && !t.tainted(fs.Fn, fs.St.Val, strings.Repeat("1", len(fs.Fn.Params))) {
 			continue
 		}
 		return true
@@ -726,4 +728,43 @@ func csvQuoterBuilderShape(c *Ctx, f *ssa.Function, in *ssa.Parameter, rv ssa.Va
 		return ""
 	}
 	return "builder: opening quote, every input byte copied, each quote byte doubled, closing quote"
+}
+
+// wrapperField: f is a field of a type of the renderer package that has a RenderTo method (the wrapper a caller
+// keeps between renders).
+func (t *taintCtx) wrapperField(f *types.Var) bool {
+	p := t.c.Pkgs[t.pkg]
+	if p == nil {
+		return false
+	}
+	sc := p.Types.Scope()
+	for _, nm := range sc.Names() {
+		tn, ok := sc.Lookup(nm).(*types.TypeName)
+		if !ok {
+			continue
+		}
+		n, ok := tn.Type().(*types.Named)
+		if !ok {
+			continue
+		}
+		st, ok := n.Underlying().(*types.Struct)
+		if !ok {
+			continue
+		}
+		owns := false
+		for i := 0; i < st.NumFields(); i++ {
+			if st.Field(i) == f {
+				owns = true
+			}
+		}
+		if !owns {
+			continue
+		}
+		for i := 0; i < n.NumMethods(); i++ {
+			if n.Method(i).Name() == "RenderTo" {
+				return true
+			}
+		}
+	}
+	return false
 }
